@@ -1668,6 +1668,7 @@ func c16DutyElems() []c16DutyElem {
 		{"genesis-slot", c16DutyJSON("0", "1", "2", "128", "4", "3"), true},
 		{"position-beyond-length", c16DutyJSON("102", "1", "18446744073709551615", "1", "0", "18446744073709551615"), true},
 		{"committee-of-15", c16DutyJSON("103", "2", "1", "15", "4", "7"), true},
+		{"committee-of-2^63", c16DutyJSON("104", "2", "1", "9223372036854775808", "4", "7"), true},
 		{"null", "null", true},
 		{"empty-object", "{}", true},
 	}
@@ -1779,6 +1780,29 @@ func c16DutyUnits(tier string) []hx.Unit {
 				info, err := subscriber.Subscribe(ctx, 3, accounts)
 				mc.Sleep(int64(100 * time.Millisecond))
 				st.outcome += fmt.Sprintf("/subscribed-slots=%d/err=%v", len(info), err != nil)
+				// ... and as the attestation jobs use it: the real attester is asked to attest for every merged duty
+				env := &attEnv{accts: map[phase0.ValidatorIndex]*hAccount{}, ct: newChainTime(-int64(96)*int64(12*time.Second), 12*time.Second, 32)}
+				for i := 0; i < 3; i++ {
+					env.accts[phase0.ValidatorIndex(i)] = accts.byIndex[phase0.ValidatorIndex(i)]
+				}
+				env.dataFn = func(_ context.Context, _ int, opts *api.AttestationDataOpts) (*phase0.AttestationData, error) {
+					e := phase0.Epoch(uint64(opts.Slot) / 32)
+					src := e
+					if src > 0 {
+						src--
+					}
+					return &phase0.AttestationData{Slot: opts.Slot, Index: opts.CommitteeIndex, BeaconBlockRoot: root(7), Source: &phase0.Checkpoint{Epoch: src, Root: root(8)}, Target: &phase0.Checkpoint{Epoch: e, Root: root(9)}}, nil
+				}
+				att := newAttesterWithSpec(env, nil, 12*time.Second, 32)
+				made := 0
+				for _, d := range merged {
+					if uint64(d.Slot())/32 != 3 {
+						continue // the controller sets up jobs for the duties of the requested epoch only
+					}
+					atts, _ := att.Attest(ctx, d)
+					made += len(atts)
+				}
+				st.outcome += fmt.Sprintf("/attested=%v", made > 0)
 			})
 		}))
 	}
